@@ -908,6 +908,14 @@ def run_px(h, name, fn, cap=30, order=('core', 'nlsat'), feas_ms=300, max_paths=
                                            order=(order.get(gname, order.get(None, ('core', 'nlsat'))) if isinstance(order, dict) else order))
             solver_used.add(sv)
             rec['attempts'].append(('path%d' % g['path'], st, round(dt, 3)))
+            if st == 'sat' and g.get('pc_full') is not None:
+                # the goal was recorded under a SUBSET of its path condition (cut hypotheses): a model of the subset need not
+                # follow the path; decide again under the full path condition so that a sat model can be replayed
+                pc = g['pc_full'] + [c for c in g['late'] if not any(c is q for q in g['pc_full'])]
+                st, m, sv, dt, att = sym.solve(pc + [atom.neg(0)], per_query_cap or cap,
+                                               order=(order.get(gname, order.get(None, ('core', 'nlsat'))) if isinstance(order, dict) else order))
+                solver_used.add(sv)
+                rec['attempts'].append(('full_path%d' % g['path'], st, round(dt, 3)))
             if st == 'unsat':
                 if not reach:
                     # vacuity twin for this goal: is the site reachable with the hypothesis true on some path?
